@@ -158,6 +158,7 @@ type devCfg struct {
 	Addr     string `json:"addr"`  // "" = no address; "a.b.c.d:port"
 	AddrKind string `json:"kind"`  // none | zeroip | port0 | valid
 	Proto    string `json:"proto"` // udp | tcp | any | ""
+	TZ       string `json:"-"`     // the Device.TimeZone field: "" = time.Local, "nil" = nil, else a zone name (it must not influence any result)
 }
 
 func (c clientCfg) build(wrap func(uhppote.Driver) uhppote.Driver) (uhppote.IUHPPOTE, []uhppote.Device) {
@@ -179,7 +180,17 @@ func (c clientCfg) build(wrap func(uhppote.Driver) uhppote.Driver) (uhppote.IUHP
 		if d.Addr != "" {
 			a = types.ControllerAddr{AddrPort: netip.MustParseAddrPort(d.Addr)}
 		}
-		devices = append(devices, uhppote.Device{Name: d.Name, DeviceID: d.Serial, Address: a, Doors: []string{"a", "b", "c", "d"}, TimeZone: time.Local, Protocol: d.Proto})
+		tz := time.Local
+		switch d.TZ {
+		case "":
+		case "nil":
+			tz = nil
+		default:
+			if z, err := time.LoadLocation(d.TZ); err == nil {
+				tz = z
+			}
+		}
+		devices = append(devices, uhppote.Device{Name: d.Name, DeviceID: d.Serial, Address: a, Doors: []string{"a", "b", "c", "d"}, TimeZone: tz, Protocol: d.Proto})
 	}
 	to := time.Duration(c.TimeoutMs) * time.Millisecond
 	if to == 0 {
